@@ -291,65 +291,79 @@ def run_plot_case(backend, arr_dims, roles, style, xspec, chart):
                     xs.append(mx.data[R.project(lab, tuple(arr_dims), mx.letters)])
             return xs, ys
 
+        # ---- read the figure back as groups = [(subplot title, [(x data, y data, line label), ...]), ...]
+        groups = []
         if backend == "plotly":
-            traces = list(fig.data)
             per_axis = {}
-            for tr in traces:
+            for tr in fig.data:
                 per_axis.setdefault(tr.xaxis or "x", []).append(tr)
-            if len(traces) != len(sub_items) * len(line_items):
-                return fail("lines", f"{len(traces)} traces for {len(sub_items)} subplot item(s) x {len(line_items)} line item(s)")
             titles = [a.text for a in (fig.layout.annotations or [])]
-            for si, sit in enumerate(sub_items):
-                axis = "x" if si == 0 else f"x{si+1}"
-                trs = per_axis.get(axis, [])
-                if len(trs) != len(line_items):
-                    return fail("lines", f"subplot #{si} holds {len(trs)} line(s)")
-                if sit is not None:
-                    if si >= len(titles) or not str(titles[si]).endswith("=" + str(sit)):
-                        return fail("subplot-title", f"subplot #{si} is titled {titles[si] if si < len(titles) else None!r}, its item is {sit!r}")
-                for li, lit in enumerate(line_items):
-                    tr = trs[li]
-                    xs, ys = want(sit, lit)
-                    if lit is not None and str(tr.name) != str(lit):
-                        return fail("line-label", f"line #{li} of subplot #{si} is named {tr.name!r}, its item is {lit!r}")
-                    if [float(v) for v in tr.y] != ys:
-                        return fail("y-data", f"subplot item {sit!r}, line item {lit!r}: y = {list(tr.y)}, the array's entries are {ys}")
-                    if [str(v) for v in tr.x] != [str(v) for v in xs] and [float(v) for v in tr.x] != [float(v) for v in xs]:
-                        return fail("x-data", f"subplot item {sit!r}, line item {lit!r}: x = {list(tr.x)}, expected {xs}")
+
+            def axis_no(a):
+                return 0 if a == "x" else int(a[1:]) - 1
+
+            for a in sorted(per_axis, key=axis_no):
+                k = axis_no(a)
+                groups.append((titles[k] if k < len(titles) else "", [(list(tr.x), list(tr.y), tr.name) for tr in per_axis[a]]))
         else:
             import matplotlib.pyplot as plt
 
             try:
-                axes = fig.axes
-                for si, sit in enumerate(sub_items):
-                    ax = axes[si]
-                    if sit is not None and not ax.get_title().endswith("=" + str(sit)):
-                        return fail("subplot-title", f"axes #{si} titled {ax.get_title()!r}, its item is {sit!r}")
+                for ax in fig.axes:
                     if chart == "line":
-                        objs = [(ln.get_xdata(orig=True), ln.get_ydata(orig=True), ln.get_label()) for ln in ax.lines]
+                        objs = [(list(ln.get_xdata(orig=True)), list(ln.get_ydata(orig=True)), ln.get_label()) for ln in ax.lines]
                     else:
                         objs = []
                         for col in ax.collections:
                             off = col.get_offsets()
                             objs.append(([o[0] for o in off], [o[1] for o in off], col.get_label()))
-                    if len(objs) != len(line_items):
-                        return fail("lines", f"axes #{si} holds {len(objs)} line(s) for {len(line_items)} line item(s)")
-                    for li, lit in enumerate(line_items):
-                        xd, yd, lbl = objs[li]
-                        xs, ys = want(sit, lit)
-                        if lit is not None and str(lbl) != str(lit):
-                            return fail("line-label", f"line #{li} of axes #{si} labelled {lbl!r}, its item is {lit!r}")
-                        if [float(v) for v in yd] != ys:
-                            return fail("y-data", f"subplot item {sit!r}, line item {lit!r}: y = {list(yd)}, the array's entries are {ys}")
-                        numeric = all(isinstance(v, (int, float, np.integer, np.floating)) for v in xs)
-                        if chart == "line" or numeric:
-                            ok = [str(v) for v in xd] == [str(v) for v in xs]
-                            if not ok and numeric:
-                                ok = [float(v) for v in xd] == [float(v) for v in xs]
-                            if not ok:
-                                return fail("x-data", f"subplot item {sit!r}, line item {lit!r}: x = {list(xd)}, expected {xs}")
+                    if objs:
+                        groups.append((ax.get_title(), objs))
             finally:
                 plt.close(fig)
+        if len(groups) != len(sub_items):
+            return fail("lines", f"{len(groups)} subplot(s) with data for {len(sub_items)} subplot item(s)")
+
+        def same_x(xd, xs):
+            if backend == "pyplot" and chart != "line" and not all(isinstance(v, (int, float, np.integer, np.floating)) for v in xs):
+                return True  # categorical scatter offsets are positions, not the items
+            if [str(v) for v in xd] == [str(v) for v in xs]:
+                return True
+            try:
+                return [float(v) for v in xd] == [float(v) for v in xs]
+            except (TypeError, ValueError):
+                return False
+
+        def group_matches(objs, sit):
+            """None if the group shows exactly the lines of subplot item sit, else a description"""
+            if len(objs) != len(line_items):
+                return f"{len(objs)} line(s) for {len(line_items)} line item(s)"
+            left = list(objs)
+            for lit in line_items:
+                xs, ys = want(sit, lit)
+                cand = [o for o in left if (lit is None or str(o[2]) == str(lit))]
+                if not cand:
+                    return f"no line labelled {lit!r} (labels {[o[2] for o in objs]})"
+                o = cand[0]
+                if [float(v) for v in o[1]] != ys:
+                    return f"line {lit!r}: y = {[float(v) for v in o[1]]}, the array's entries are {ys}"
+                if not same_x(o[0], xs):
+                    return f"line {lit!r}: x = {list(o[0])}, expected {xs}"
+                left.remove(o)
+            return None
+
+        used = set()
+        for title, objs in groups:
+            hits = [sit for sit in sub_items if sit not in used and group_matches(objs, sit) is None]
+            if not hits:
+                why = group_matches(objs, sub_items[0]) if len(sub_items) == 1 else "; ".join(f"as {sit!r}: {group_matches(objs, sit)}" for sit in sub_items[:2])
+                kind = "x-data" if "x =" in str(why) else ("line-label" if "labelled" in str(why) else "y-data")
+                return fail(kind, f"subplot titled {title!r} shows no subplot item's data: {why}")
+            sit = hits[0]
+            used.add(sit)
+            if sit is not None and len(sub_items) > 1:
+                if str(sit) not in str(title) or any(str(o) in str(title) for o in sub_items if o != sit and str(o) not in str(sit)):
+                    return fail("subplot-title", f"the subplot showing the data of item {sit!r} is titled {title!r}")
     except Exception as e:  # reading the figure back failed: report as a violation of observability, with detail
         return fail("unreadable", f"figure could not be read back: {type(e).__name__}: {e}")
     return "plot-faithful", None
